@@ -18,7 +18,7 @@ CHECKS = {
             "Trusted: KMI, vRel64 oracle (SMT bvult/bvule/=/bvand), engine + solvers as for C01. The byte order is set through the unexported package variable by the in-package harness.",
             "SMT-based equivalence of compiled condition vs 64-bit relation over all values (go/ssa symbolic execution, z3 + cvc5)"),
     "C03": (TV, "4 (C03)",
-            "Same equivalence as C01 on all shapes with argument conditions up to weight 7/9 (AND within a list, OR across lists incl. merged same-name entries, fall-through to later entries, groups, default) with operands, argument indices, events and actions symbolic, plus long lists (64x1, 22x3; thorough up to 130x1, 11x6, 300 conditional syscalls). The 'no leak' clause is covered because argument words are unconstrained, so the solver is free to make them equal any syscall number or operand.",
+            "Same equivalence as C01 on all shapes with argument conditions up to weight 7/9 (AND within a list, OR across lists incl. merged same-name entries, fall-through to later entries, groups, default) with operands, argument indices, events and actions symbolic, plus long lists (64x1, 22x3; thorough up to 130x1, 11x6, 300 conditional syscalls) and all 64 ordered pairs of operations in one list with symbolic argument indices (several conditions on the same argument). The 'no leak' clause is covered because argument words are unconstrained, so the solver is free to make them equal any syscall number or operand.",
             "As C01. Operations on the small shapes are the representatives {Equal, GreaterThan} (+BitsNotSet in thorough); the other operations are C02's job and appear in the long shapes.",
             "SMT-based bounded translation validation of the real compiler (go/ssa symbolic execution, z3 + cvc5)"),
     "C04": (TV, "4 (C04)",
@@ -74,7 +74,7 @@ CHECKS = {
             "Stubs for flag, go-ucfg, os/io file reading, exec, os.Exit (contract: fail or deliver). That the filter survives execve and what the target observes is kernel behaviour, outside.",
             "symbolic execution of the real main() over all environment-failure combinations (go/ssa engine; z3 + cvc5 for path feasibility)"),
     "C16": (MC, "4 (C16)",
-            "The real Parse/parseX86_64 run over L <= 2/3 symbolic lines delivered by a model scanner that may stop anywhere with or without an error. A line is an SMT string constrained only by regular-language memberships derived from the literals the current source uses; z3 5.1 decides each path's feasibility and obligations for ALL line contents: no panic, read failure => error and no partial result, findSyscallNum is only given lines of the current function and ALL of them since the previous syscall site (window completeness), every reported syscall is in the table under its name, appended lines never remove earlier results. Long listings: the symbolic lines are additionally separated by concrete filler instructions (600 in quick; 127..10000 at sizes around powers of two, and three symbolic lines 260 apart, in thorough), so windows, counters and buffers of a few hundred or thousand lines are crossed. The scanner model stops with no error, an arbitrary error, or bufio.ErrTooLong (Scanner.Buffer moves the limit, it does not remove it).",
+            "The real Parse/parseX86_64 run over L <= 2/3 symbolic lines delivered by a model scanner that may stop anywhere with or without an error. A line is an SMT string constrained only by regular-language memberships derived from the literals the current source uses; z3 5.1 decides each path's feasibility and obligations for ALL line contents: no panic, read failure => error and no partial result, findSyscallNum is only given lines of the current function and ALL of them since the previous syscall site (window completeness), every reported syscall is in the table under its name, appended lines never remove earlier results. Long listings: the symbolic lines are additionally separated by concrete filler instructions (600 in quick; 127..1025 at ten sizes around powers of two, and fillers in front, in thorough), so windows, counters and buffers of a few hundred or thousand lines are crossed. The scanner model stops with no error, an arbitrary error, or bufio.ErrTooLong (Scanner.Buffer moves the limit, it does not remove it).",
             "findSyscallNum (regexp + ParseInt) is summarised as 'arbitrary number or error'; alphabet = printable ASCII + space + tab; L symbolic lines bounded (no induction over the number of lines; filler lines are concrete). String obligations are decided by z3 5.1.0 alone (no cross-check).",
             "SMT string/regular-language solving over symbolic lines with the real parser executed from go/ssa (z3 5.1)"),
     "C17": (MC, "4 (C17)",
